@@ -57,10 +57,12 @@ type Features struct {
 	BoolLiteralCase bool
 	Redundant       bool // redundant parentheses
 	MaxDepth        int
+	// clause-level switches (all on by default)
+	NoDistinctOn, NoFetch, NoForClause, NoReturning, NoOnConflict, NoDMLWith, NoMaterialized, NoGroupingOps bool
 }
 
 func AllFeatures() Features {
-	return Features{true, true, true, true, true, true, true, true, true, true, true, true, true, true, 3}
+	return Features{CmpRhsArith: true, UnaryMinus: true, SetOpInDerived: true, WithInDerived: true, LowerCompound: true, QuantifierCase: true, KeywordCase: true, QuotedKeywordID: true, IsNotNull: true, NotExists: true, UsingJoin: true, FrameOffsets: true, BoolLiteralCase: true, Redundant: true, MaxDepth: 3}
 }
 
 // Names records what the generator placed (for C15/C16).
